@@ -382,6 +382,17 @@ let () =
              | None -> "ok"
              | Some r -> "fail:" ^ r) in
         Mlutil.print_model model verdict
+    | "new", [capf; poolf] ->
+        (* store construction died at its MkdirAll; a second file.New: an empty store that accepts mail
+           (in the model the root mail directory always exists: New is Stat + MkdirAll, idempotent) *)
+        let ctx = mk_ctx capf poolf in
+        let st = init_st ctx in
+        let exp = "new.mkdir/" ^ state ctx st ^ "/" ^ visit_s ctx st ^ "/" ^ after_crash ctx st 0 in
+        let model = List.map (fun i -> Printf.sprintf "d%d=%s" i exp) [0; 1; 2] in
+        let verdict = if outs = model then "ok" else
+          if List.exists (fun o -> has_sub o "no-point") outs then "fail:file.New-has-no-crash-point-at-its-MkdirAll"
+          else "fail:store-construction-after-a-crashed-construction-is-not-an-empty-working-store" in
+        Mlutil.print_model model verdict
     | "visit", [capf; poolf; histf; opf; kf; jf] ->
         let (st, ctx) = run_hist (mk_ctx capf poolf) (parse_ops histf) in
         let o = parse_op opf in
